@@ -694,7 +694,9 @@ where
                 }
                 (None, c) => result.push(c),
             }
-            if escape.is_some() || !result.is_empty() {
+            // (A backslash does not begin an argument by itself: at the end of
+            // the input there is nothing for it to quote.)
+            if matches!(escape, Some(Escape::Quote(_))) || !result.is_empty() {
                 in_token = true;
             }
 
